@@ -47,6 +47,9 @@ type CycLine struct {
 
 func tvCyc(k string) *TV { return &TV{T: "cyc", K: k} }
 
+// tvPtrAny: a pointer to an interface variable (*any) that holds the value
+func tvPtrAny(inner *TV) *TV { return &TV{T: "ptr", N: 1, V: inner} }
+
 // NDec: a named type over decimal.Decimal (the model sees the decimal it holds; the exact canonical form of an unconverted one is nd:)
 type NDec decimal.Decimal
 type NString string
@@ -251,7 +254,11 @@ func build(t *TV) (reflect.Value, bool) {
 		if !ok {
 			panic("ptr to nil")
 		}
-		p := reflect.New(iv.Type())
+		pt := iv.Type()
+		if t.N == 1 { // a pointer to an interface variable (*any) that holds the value
+			pt = anyT
+		}
+		p := reflect.New(pt)
 		if t.Nil == 1 {
 			return reflect.Zero(p.Type()), true
 		}
@@ -471,7 +478,10 @@ func (t *TV) MarshalJSON() ([]byte, error) {
 	case "dec":
 		m["c"], m["e"], m["n"] = t.C, t.E, t.N
 	case "ptr":
-		m["nil"], m["v"] = t.Nil, t.V
+		m["nil"], m["v"], m["n"] = t.Nil, t.V, t.N
+		if t.N == 1 { // a pointer to an interface variable: outside the model's values (its pointers point at concrete values)
+			m["pa"] = 1
+		}
 	case "slice":
 		m["ei"], m["nil"], m["v"] = t.EI, t.Nil, t.V
 	case "array":
@@ -522,7 +532,7 @@ func decodeTV(raw json.RawMessage) *TV {
 	case "dec":
 		t.C, t.E, t.N = str("c"), str("e"), num("n")
 	case "ptr":
-		t.Nil = num("nil")
+		t.Nil, t.N = num("nil"), num("n")
 		t.V = decodeTV(m["v"])
 	case "slice", "array":
 		t.EI, t.Nil = num("ei"), num("nil")
